@@ -28,7 +28,10 @@ for d in sorted(glob.glob(os.path.join(root, "C[0-9][0-9][a-z]"))):
             if c not in seen:
                 seen.append(c)
         classes = ", ".join(seen[:3])
-    if q == 1:
+    if meta.get("superseded"):
+        verdict = "does not apply to HEAD"
+        classes = ""
+    elif q == 1:
         verdict = "quick"
     elif str(t) == "1":
         verdict = "thorough only"
